@@ -124,13 +124,13 @@ def run(tier, seed, replay=None):
         err = None
         try:
             if op == 'insert1':
-                ret = o.insert_knot(float(xs[0]), d)
+                ret = o.insert_knot(float(xs[0]), O.spell(rng, d))
             elif op == 'insertN':
-                ret = o.insert_knot([float(x) for x in xs], d)
+                ret = o.insert_knot([float(x) for x in xs], O.spell(rng, d))
             elif op == 'refine':
                 ret = o.refine(extra)
             elif op == 'refine_dir':
-                ret = o.refine(extra, direction=d)
+                ret = o.refine(extra, direction=O.spell(rng, d))
             else:
                 kind, par, n, rev = extra[:4]
                 twice = len(extra) > 4 and extra[4]
@@ -138,11 +138,11 @@ def run(tier, seed, replay=None):
                 # already uniform direction) must be a no-op, not merely "usually" insert something
                 for _rep in range(2 if twice else 1):
                     if kind == 'geometric':
-                        ret = refinement.geometric_refine(o, par, n, d, rev)
+                        ret = refinement.geometric_refine(o, par, n, O.spell(rng, d), rev)
                     elif kind == 'center':
-                        ret = refinement.center_refine(o, par, n, d)
+                        ret = refinement.center_refine(o, par, n, O.spell(rng, d))
                     else:
-                        ret = refinement.edge_refine(o, par, n, d)
+                        ret = refinement.edge_refine(o, par, n, O.spell(rng, d))
             if ret is not o:
                 V.failure(dict(case, what='in-place operation did not return the object itself'))
         except Exception as e:  # noqa
